@@ -59,6 +59,7 @@ const (
 	SiteGo
 	SiteEvent
 	SiteExit
+	SiteHot // an inserted scheduling point in front of an operation that closes a check-then-act window (guard acquisition)
 	NSites
 )
 
@@ -114,6 +115,10 @@ type gstate struct {
 	joinHi   int32
 	site     int
 	pendingW bool // counted in wrw.pendW
+	// holdUntil: after a preemption the goroutine is not picked again before this step unless nothing else can
+	// run - one long delay at one point, which is what lets another request's whole critical section fit into
+	// a window of a few instructions
+	holdUntil int64
 }
 
 // Config fixes one schedule.
@@ -122,6 +127,8 @@ type Config struct {
 	PreemptPPM  uint32  // probability (parts per million) of a preemption at a yield point
 	StallPPM    uint32  // probability that the scheduler lets simulated time pass although a goroutine is enabled
 	StallMaxMs  uint32  // upper bound of one stall
+	HotPPM      uint32  // preemption probability at SiteHot points (0 = PreemptPPM)
+	HoldMax     uint32  // if >0: a preempted goroutine is held back for 1..HoldMax scheduler steps (others run on meanwhile)
 	Explicit    bool    // if true, preempt exactly at Steps (PreemptPPM ignored)
 	Steps       []int64 // explicit preemption steps (sorted)
 	MaxSteps    int64   // budget; 0 = default
@@ -467,7 +474,7 @@ func (r *rt) enabled(g *gstate, now int64) bool {
 // decidePreempt is evaluated at every yield point of the token holder.
 //
 //go:norace
-func (r *rt) decidePreempt() bool {
+func (r *rt) decidePreempt(site int) bool {
 	if r.cfg.Explicit {
 		for r.explicit < len(r.cfg.Steps) && r.cfg.Steps[r.explicit] < r.step {
 			r.explicit++
@@ -478,10 +485,14 @@ func (r *rt) decidePreempt() bool {
 		}
 		return false
 	}
-	if r.cfg.PreemptPPM == 0 {
+	ppm := r.cfg.PreemptPPM
+	if site == SiteHot && r.cfg.HotPPM > 0 {
+		ppm = r.cfg.HotPPM
+	}
+	if ppm == 0 {
 		return false
 	}
-	return uint32(Mix(r.cfg.Seed, uint64(r.step))%1_000_000) < r.cfg.PreemptPPM
+	return uint32(Mix(r.cfg.Seed, uint64(r.step))%1_000_000) < ppm
 }
 
 //go:norace
@@ -536,7 +547,7 @@ func (r *rt) yield(site int, w *wait) bool {
 			now = time.Now().UnixNano()
 		}
 		en := r.enabled(g, now)
-		if en && !r.decidePreempt() {
+		if en && !r.decidePreempt(site) {
 			r.fold(uint64(r.step), uint64(g.id), uint64(site))
 			r.unwait(g)
 			r.mu.Unlock()
@@ -550,6 +561,9 @@ func (r *rt) yield(site int, w *wait) bool {
 				r.npre++
 			}
 			g.pre = true // scheduler prefers another goroutine
+			if r.cfg.HoldMax > 0 {
+				g.holdUntil = r.step + 1 + int64(Mix(r.cfg.Seed^0x401d, uint64(r.step))%uint64(r.cfg.HoldMax))
+			}
 		} else {
 			r.stats.Blocked++
 			g.pre = false
@@ -638,6 +652,9 @@ func (r *rt) loop() {
 			if r.enabled(g, now) {
 				cand[n] = i
 				n++
+				if g.holdUntil > r.step {
+					g.pre = true // still held back
+				}
 				if !g.pre {
 					nonPre++
 				}
@@ -1325,6 +1342,19 @@ func OnceEnd(o *On) {
 	raceRelease(o)
 	o.done = true
 	o.running = false
+}
+
+// HotYield is a scheduling point inserted by the instrumenter in front of an operation that typically ends a
+// check-then-act window (acquiring a record guard); runs may preempt there with a much higher probability.
+//
+//go:norace
+func HotYield() {
+	r := cur.Load()
+	if r == nil {
+		return
+	}
+	w := plainWait
+	r.yield(SiteHot, &w)
 }
 
 // AtomicYield is the scheduling point in front of every shimmed atomic op.
